@@ -271,7 +271,7 @@ def check_message(ctx, case, toks, b, tag, max_depth, budget):
         else:
             bad.append((e + '.001001[0]', cs + [('.', '001001', 0)]))
     exprs = [(sel + e, cs, None) for e, cs in paths + bad] + [(sel + e, None, i) for e, _, i in desc]
-    simple = set(sel + e for e, _ in paths + bad)
+    simple = set(e for e, _, _ in exprs)      # every path: the Coq reference covers descendant steps too (QueryRef.jdesc)
     lines, meta = model_lines(toks, flat, [e for e, _, _ in exprs], compressed)
     mouts = dict(zip(meta, lib.run_model_sharded(lines) if len(lines) > 3000 else lib.run_model(lines)))
     # the proved-equal Coq reference (QueryRef.eval_json over Nested.render_nodes) on the extracted model
@@ -313,7 +313,7 @@ def check_message(ctx, case, toks, b, tag, max_depth, budget):
                                       'query %r: implementation %s, evaluation over nested JSON %r' % (e, fmt(io[2][k])[:80], r))
                 ro = routs.get((0 if compressed else si, e))
                 if ro is not None:
-                    ctx.dist['coq-reference-compared'] += 1
+                    ctx.dist['coq-reference-compared' + ('-descendant' if '>' in e or bare is not None else '')] += 1
                     if ro != got:
                         ctx.compare(dict(case, expr=e, subset=si), got[:300], ro[:300], kind='C16-coq-reference',
                                     holds=lambda: cs is None or ref_eval(nested[0 if compressed else si], cs) == ('ok', io[2][k]))
